@@ -8,7 +8,7 @@ import copy
 from typing import Dict, List, Optional
 
 from .errors import AnalysisError
-from .astutil import clone
+from .astutil import clone, beta_reduce
 from .paths import enumerate_paths, Path, Step
 from . import guards as G
 
@@ -69,7 +69,11 @@ class _Opaque:
 
 
 def _sub(node, env):
-    return G.substitute(node, env, recursive=False) if env else clone(node)
+    out = G.substitute(node, env, recursive=False) if env else clone(node)
+    # a local bound to a lambda and called: the call is the lambda's body
+    if any(isinstance(n, ast.Call) and isinstance(n.func, (ast.Lambda, ast.IfExp)) for n in ast.walk(out)):
+        out = beta_reduce(out)
+    return out
 
 
 _PURE_FUNCS_EARLY = None
